@@ -409,6 +409,9 @@ def base_engine(E, inline_all=True):
     q = MOD + '.BaseFileLock.'
     E.inline |= {q + '_acquire', q + '_release', q + '_decrement_lock_counter', q + 'is_locked',
                  MOD + '.UnixFileLock._lock', MOD + '.UnixFileLock._unlock'}
+    # private helpers of the lock classes without a contract of their own are executed inline (a helper
+    # extracted by a refactoring stays decidable); public methods go by contract
+    E.inline_prefixes = (MOD + '.BaseFileLock._', MOD + '.UnixFileLock._')
     E.hooks[(q + 'acquire', 'loop', 0)] = acquire_poll_loop
     E.hooks[(q + 'release', 'loop', 0)] = release_levels_loop
 
